@@ -254,4 +254,12 @@ def obligations(tier):
         obs.append(Ob(f'{mode}/timestamp', 'bvx', sym_timestamp, conc_timestamp, {'mode': mode}, timeout=t, bounds='every integer timestamp', targets=TARGETS))
         obs.append(Ob(f'{mode}/pair timestamp (option timestamp)', 'bvx', sym_timestamp, conc_timestamp, {'mode': mode, 'type': 'pair timestamp (option timestamp)'},
                       timeout=t, bounds='every integer timestamp, nested', targets=TARGETS))
+    from harness import C10
+
+    for tname, kind, ep in (('address', 'tz1', None), ('address', 'KT1', 'a'), ('address', 'sr1', None), ('address', 'tz3', 'default'), ('key_hash', 'tz2', None),
+                            ('key', 'edpk', None), ('key', 'sppk', None), ('signature', 'sig', None), ('chain_id', 'Net', None)):
+        for mode in MODES:
+            obs.append(Ob(f'{mode}/{tname}/{kind}/{ep or "-"}', 'bvx', C10.sym_roundtrip, C10.conc_roundtrip,
+                          {'type': tname, 'kind': kind, 'entrypoint': ep, 'mode': mode}, timeout=t, opts={'W': 32},
+                          bounds=f'every payload of {kind} (base58 boundary stub)', targets=TARGETS))
     return obs
